@@ -851,7 +851,9 @@ class _TftpReadRequest:
             # read some data.
             try:
                 file_stat = os.fstat(self._file.fileno())
-                self._options[OPTION_TRANSFER_SIZE] = str(file_stat.st_size)
+                self._options[OPTION_TRANSFER_SIZE] = str(
+                    file_stat.st_size - self._file.tell()
+                )
             except OSError:
                 # We ignore any exception that might happen here: We can still
                 # transfer the file, we just cannot tell its size.
